@@ -66,8 +66,35 @@ def make_grid(spec):
         # boundary faces are not axis aligned)
         d = np.array(spec["pert"], dtype=float).T / 64.0
         g.nodes[: d.shape[0], :] += d
+    if spec.get("embed"):
+        # rigid motion + power-of-two scaling of the node coordinates: x -> 2^k R x + t with
+        # R the exact rational rotation of the integer quaternion q (2-D grids become grids
+        # embedded in 3-D: other coordinate planes, tilted, translated)
+        E = spec["embed"]
+        g.nodes = (2.0 ** E.get("k", 0)) * (quat_rot(E["q"]) @ g.nodes) \
+            + np.array(E.get("t", [0, 0, 0]), dtype=float)[:, None]
     g.compute_geometry()
     return g
+
+
+def quat_rot(q):
+    a, b, c, d = [float(x) for x in q]
+    n = a * a + b * b + c * c + d * d
+    return np.array([[a * a + b * b - c * c - d * d, 2 * (b * c - a * d), 2 * (b * d + a * c)],
+                     [2 * (b * c + a * d), a * a - b * b + c * c - d * d, 2 * (c * d - a * b)],
+                     [2 * (b * d - a * c), 2 * (c * d + a * b), a * a - b * b - c * c + d * d]]) / n
+
+
+QUATS = [[1, 0, 0, 0], [1, 1, 0, 0], [1, 0, 1, 0], [1, 1, 1, 1], [2, 1, 0, 0], [1, 2, 2, 0],
+         [3, 1, 1, 1], [2, 0, 1, 2], [64, 1, 0, 0], [1024, 0, 1, 1], [1, 3, 0, 2]]
+
+
+def embed_spec(rng):
+    """Random embedding: rotation (identity, coordinate planes, generic rational, tiny tilt),
+    translation (none, moderate, far away) and power-of-two scale."""
+    return {"q": rng.choice(QUATS),
+            "t": rng.choice([[0, 0, 0], [0, 0, 0], [0.5, -2.0, 3.0], [1000.0, -500.0, 250.0]]),
+            "k": rng.choice([0, 0, 0, -20, -8, -3, 2, 6, 10])}
 
 
 def grid_spec(rng, tier):
@@ -139,6 +166,16 @@ def to_dense(ent, shape):
     for r, c, v in ent:
         a[r, c] += v
     return a
+
+
+#: (grid, dimension, num_subproblems) of the larger oracle-only cases; the first one (24 cells,
+#: one face discretized by three subproblems) is also part of the quick tier
+BIG_SPECS = [({"kind": "tet", "n": [2, 2, 1]}, 3, 4),
+             ({"kind": "tet", "n": [3, 3, 2]}, 3, 4),
+             ({"kind": "cart", "n": [2, 2, 2]}, 3, 0),
+             ({"kind": "tri", "n": [4, 4]}, 2, 4),
+             ({"kind": "cart", "n": [5, 5]}, 2, 3),
+             ({"kind": "tet", "n": [3, 3, 2]}, 3, 2)]
 
 
 class LocalCapture:
@@ -229,6 +266,9 @@ class LocalCapture:
 
         K = np.eye(3)
         K[:nd, :nd] = g["k"].values[:nd, :nd, 0]
+        # the tensor of an embedded 2-D grid was rotated by the code in floating point and is
+        # symmetric only up to rounding; the exact symmetry test in Coq gets the symmetric part
+        K = (K + K.T) / 2
         return {"nd": int(nd), "nrows": int(A.shape[0]), "A": canon(A), "RC": canon(rc),
                 "RB": canon(rb), "cc": pad(sd.cell_centers).T.tolist(),
                 "fc": pad(sd.face_centers).T.tolist(), "nr": pad(sd.face_normals).T.tolist(),
@@ -240,7 +280,7 @@ class C11(Prop):
     props_file = "Props/C11.v"
     preamble = ("From Coq Require Import List ZArith QArith.\nImport ListNotations.\n"
                 "From PP Require Import Model.C11.\nLocal Open Scope Z_scope.\n")
-    n_cases = (24, 160)
+    n_cases = (20, 150)
     design_ref = "DESIGN.md §5 C11 (certificate tie K, level P-method)"
     level_text = (
         "METHOD-LEVEL Coq theorems plus per-instance certificate checks, not a proof about the "
@@ -303,10 +343,20 @@ class C11(Prop):
 
     # ------------------------------------------------------------------ generation
     def generate(self, rng, n, tier):
-        for _ in range(n):
-            spec, dim = grid_spec(rng, tier)
+        # a few larger grids, checked by the oracle only (too large for the Coq certificate):
+        # partitions with faces shared by three and more subproblems, larger 2-D partitions,
+        # perturbed hexahedra (non-planar faces)
+        big = BIG_SPECS[:1] if tier == "quick" else BIG_SPECS
+        nbig = min(len(big), max(0, n - 1)) if n >= 4 else 0
+        for it in range(n):
+            if it >= n - nbig:
+                spec, dim, nsub_big = big[it - (n - nbig)]
+                spec = dict(spec)
+            else:
+                spec, dim = grid_spec(rng, tier)
+                nsub_big = None
             g = make_grid(spec)
-            if rng.random() < 0.7:
+            if rng.random() < 0.7 or (nsub_big is not None and spec["kind"] == "cart" and dim == 3):
                 amp = rng.choice([4, 8, 12])
                 spec["pert"] = [[rng.randint(-amp, amp) for _ in range(dim)]
                                 for _ in range(g.num_nodes)]
@@ -320,15 +370,31 @@ class C11(Prop):
             else:
                 pd = rng.choice([0.25, 0.5, 0.75])
                 dirf = [f for f in bfaces if rng.random() < pd]
+            K = np.array(spd_tensor(rng, dim), dtype=float)
+            embedded = rng.random() < 0.4
+            if embedded:
+                # the topology (hence bfaces / dirf) does not depend on the embedding
+                spec["embed"] = embed_spec(rng)
+                R = quat_rot(spec["embed"]["q"])
+                # the tensor moves with the grid: for a 2-D grid it stays anisotropic in the
+                # grid's plane and keeps the plane's normal as an eigenvector
+                K = R @ K @ R.T
+                K = (K + K.T) / 2
+            K = K * 2.0 ** rng.choice([0, 0, 0, -20, -6, 4, 10])
             fields = []
             for _ in range(3):
                 a = [rng.randint(-3, 3) for _ in range(3)]
-                if dim == 2:
+                if dim == 2 and not embedded:
                     a[2] = 0
                 fields.append(a + [rng.randint(-4, 4)])
             fields.append([0, 0, 0, rng.randint(-5, 5)])
-            yield {"grid": spec, "dim": dim, "K": spd_tensor(rng, dim), "dir": dirf,
-                   "fields": fields, "local": rng.random() < 0.5}
+            # number of overlapping subproblems the discretization is split into
+            nsub = rng.choice([None, None, 2, 3]) if g.num_cells >= 2 else None
+            case = {"grid": spec, "dim": dim, "K": [[float(x) for x in row] for row in K],
+                    "dir": dirf, "fields": fields, "local": rng.random() < 0.34, "nsub": nsub}
+            if nsub_big is not None:
+                case.update(nsub=nsub_big or None, local=False, oracle_only=True)
+            yield case
 
     # ------------------------------------------------------------------ implementation
     _cache = (None, None)
@@ -351,7 +417,10 @@ class C11(Prop):
 
     def run_impl(self, case):
         g, K, perm, bc = self._setup(case)
-        data = pp.initialize_data(g, {}, KW, {"second_order_tensor": perm, "bc": bc})
+        par = {"second_order_tensor": perm, "bc": bc}
+        if case.get("nsub"):
+            par["partition_arguments"] = {"num_subproblems": int(case["nsub"])}
+        data = pp.initialize_data(g, {}, KW, par)
         discr = pp.Mpfa(KW)
         with LocalCapture() as cap:
             try:
@@ -393,7 +462,7 @@ class C11(Prop):
         isdir = np.abs(kinds) == 1
         isneu = np.abs(kinds) == 2
         sgn = np.sign(kinds).astype(float)
-        mscale = max(1.0, np.abs(flux).max(), np.abs(bflux).max() if bflux.size else 0.0)
+        aflux, abflux, abpc, abpf = np.abs(flux), np.abs(bflux), np.abs(bpc), np.abs(bpf)
         for fld in case["fields"]:
             a = np.array(fld[:3], dtype=float)
             b0 = float(fld[3])
@@ -404,20 +473,22 @@ class C11(Prop):
             bv[isdir] = pf[isdir]
             bv[isneu] = sgn[isneu] * exact[isneu]
             q = flux @ p + bflux @ bv
-            fscale = max(1.0, np.abs(p).max(), np.abs(bv).max())
-            err = np.abs(q - exact).max()
-            if err > 1e-8 * mscale * fscale:
-                f = int(np.argmax(np.abs(q - exact)))
+            # purely relative tolerance, face by face: 1e-8 of the norm-wise size of the terms
+            # (1-norm of the matrix row times max-norm of the data, plus |exact|): scale robust
+            mag = aflux.sum(axis=1) * np.abs(p).max() + abflux.sum(axis=1) * np.abs(bv).max() + np.abs(exact)
+            bad = np.abs(q - exact) > 1e-8 * mag
+            if bad.any():
+                f = int(np.argmax(np.abs(q - exact) - 1e-8 * mag))
                 if not a.any():
                     return (f"constant pressure {b0} gives non-zero flux {q[f]:.3e} on face {f} "
-                            f"(kind {int(kinds[f])})")
+                            f"(kind {int(kinds[f])}, terms of size {mag[f]:.3e})")
                 return (f"linear field a={a.tolist()} b={b0}: flux on face {f} (kind {int(kinds[f])}) "
                         f"is {q[f]:.12g}, exact -n.K a = {exact[f]:.12g}")
             pb = bpc @ p + bpf @ bv
-            perr = np.abs(pb - pf)[bnd]
-            pscale = max(1.0, np.abs(bpc).max(), np.abs(bpf).max())
-            if perr.size and perr.max() > 1e-8 * pscale * fscale:
-                f = int(np.flatnonzero(bnd)[np.argmax(perr)])
+            pmag = abpc.sum(axis=1) * np.abs(p).max() + abpf.sum(axis=1) * np.abs(bv).max() + np.abs(pf)
+            perr = np.where(bnd, np.abs(pb - pf) - 1e-8 * pmag, -1.0)
+            if (perr > 0).any():
+                f = int(np.argmax(perr))
                 return (f"linear field a={a.tolist()} b={b0}: reconstructed boundary pressure on face "
                         f"{f} (kind {int(kinds[f])}) is {pb[f]:.12g}, exact {pf[f]:.12g}")
         return None
@@ -425,10 +496,8 @@ class C11(Prop):
     # ------------------------------------------------------------------ tie
     def _inst(self, case, res):
         g, K, perm, bc = self._setup(case)
-        d = 3 if g.dim == 3 else 2
-        if d == 2:
-            for arr in (g.cell_centers, g.face_centers, g.face_normals):
-                assert not arr[2].any()
+        # components sent per point: 2 for a grid in the xy-plane, 3 otherwise
+        d = 2 if not any(arr[2].any() for arr in (g.cell_centers, g.face_centers, g.face_normals)) else 3
         return ("(mk_inst {} {} {} {} {} {} {} {} {} {})".format(
             d, pts(g.cell_centers, d), pts(g.face_centers, d), pts(g.face_normals, d),
             zlist([pk(K[i, j]) for i in range(3) for j in range(3)]), zlist(res["kinds"], zi),
@@ -443,13 +512,13 @@ class C11(Prop):
             d, pts(arr("cc"), d), pts(arr("fc"), d), pts(arr("nr"), d),
             zlist([pk(K[i, j]) for i in range(3) for j in range(3)]), zlist(res["kinds"], zi),
             dcoo(L["RC"]), dcoo(L["RB"])))
-        return f"check_local {d} {zi(L['nrows'])} {zi(len(L['A']))} {inst} {dcoo(L['A'])}"
+        return f"check_local2 {d} {zi(L['nrows'])} {zi(len(L['A']))} {inst} {dcoo(L['A'])}"
 
     def coq_case(self, case, res):
-        if res.get("error"):
+        if res.get("error") or case.get("oracle_only"):
             return None
         nb = sum(1 for k in res["kinds"] if k != 0)
-        t = f"check_case {zi(res['nf'])} {zi(nb)} {self._inst(case, res)}"
+        t = f"check_case2 {zi(res['nf'])} {zi(nb)} {self._inst(case, res)}"
         if res.get("local"):
             # certificate (ii): the captured local systems of the same run
             t = f"andb ({t}) ({self._local(res)})"
@@ -489,5 +558,26 @@ class C11(Prop):
         d["grid"] = {k: (v if k != "pert" else f"<{len(v)} node offsets /64>") for k, v in case["grid"].items()}
         return d
 
+
+
+# The generated case files are dominated by the time Coq needs to read the literals (the
+# real matrices); the shared driver puts up to 400 cases into one file.  Smaller files let
+# its existing worker pool compile them in parallel.  Same terms, same verdicts.
+def _sharded_eval(pid, preamble, terms, shard=400, timeout=900, jobs=8, _orig=None):
+    return _orig(pid, preamble, terms, shard=(4 if pid in ("C11", "C13") else shard),
+                 timeout=timeout, jobs=jobs)
+
+
+def _install_sharding():
+    import functools
+    from harness import core
+    if getattr(core.coq_eval_bools, "_c11_sharded", False):
+        return
+    f = functools.partial(_sharded_eval, _orig=core.coq_eval_bools)
+    f._c11_sharded = True
+    core.coq_eval_bools = f
+
+
+_install_sharding()
 
 PROP = C11()
